@@ -1085,19 +1085,28 @@ PROBE_RE = re.compile(PL + r"(\d+)([ba]):(.*?)" + PR, re.S)
 
 
 def o4_check(out: str) -> tuple[int, list[tuple[int, str, str]]]:
-    """Pair each 'after' probe with the latest 'before' probe of the same construct."""
-    pending: dict[int, str] = {}
+    """Pair each 'after' probe with the latest 'before' probe of the same construct.
+
+    A construct whose probes differ is reported only when no construct that ran inside it
+    (opened after its 'before' probe and already closed) differs too: the innermost one is
+    the binder that did not restore the name, the enclosing ones merely see the damage."""
+    pending: dict[int, tuple[str, int]] = {}
     bad: list[tuple[int, str, str]] = []
+    bad_seqs: list[int] = []
     n = 0
+    seq = 0
     for m in PROBE_RE.finditer(out):
         nid, side, text = int(m.group(1)), m.group(2), m.group(3)
+        seq += 1
         if side == "b":
-            pending[nid] = text
+            pending[nid] = (text, seq)
         elif nid in pending:
             n += 1
-            if pending[nid] != text:
-                bad.append((nid, pending[nid], text))
-            del pending[nid]
+            before, opened = pending.pop(nid)
+            if before != text:
+                if not any(s > opened for s in bad_seqs):
+                    bad.append((nid, before, text))
+                bad_seqs.append(opened)
     return n, bad
 
 
